@@ -117,23 +117,23 @@ theorem doRequest_good (cfg : Cfg) (i : Nat) (d0 : Dst) (st : St) (r : Resp)
       have hpos' : st.dst.pos = d0.pos := by omega
       rw [write_seek _ hk, write_seek _ hk0, hp3, hpos', ow_ow, List.drop_eq_nil_of_le hp1]
       simp [hk, hk0]
-  have part_good : ∀ k, k < cfg.blob.length →
-      Good d0 cfg.blob { dst := st.dst.write (cfg.blob.take k), n := st.n + k, trace := st.trace ++ [i] } := by
-    intro k hkl
+  have part_good : ∀ k, Good d0 cfg.blob
+      { dst := st.dst.write (cfg.blob.take k), n := st.n + (cfg.blob.take k).length, trace := st.trace ++ [i] } := by
+    intro k
     refine ⟨by simp [write_kind, hk], ?_⟩
     cases hk0 : d0.kind
     · rw [hk0] at hrest hk
       simp only at hrest ⊢
       intro hz
-      have hk0' : k = 0 := by omega
-      subst hk0'
-      rw [write_plain _ hk]
+      have hnil : cfg.blob.take k = [] := by
+        apply List.eq_nil_of_length_eq_zero; omega
+      rw [hnil, write_plain _ hk]
       simp [hrest hn]
     · rw [hk0] at hk hrest
       obtain ⟨hpos, p, hp1, _, hp3⟩ := hrest
       simp only
       rw [write_seek _ hk]
-      refine ⟨by simp [List.length_take]; omega, cfg.blob.take k ++ p.drop (cfg.blob.take k).length, ?_, ?_, ?_⟩
+      refine ⟨by simp only; omega, cfg.blob.take k ++ p.drop (cfg.blob.take k).length, ?_, ?_, ?_⟩
       · simp [List.length_take]; omega
       · simp [List.length_take]; omega
       · have hpos' : st.dst.pos = d0.pos := by omega
@@ -141,12 +141,20 @@ theorem doRequest_good (cfg : Cfg) (i : Nat) (d0 : Dst) (st : St) (r : Resp)
   cases r with
   | netErr => simp [doRequest, request, Good, hk, hrest]
   | status c => simp [doRequest, request, Good, hk, hrest]
-  | full => simp [doRequest, request, full_ok]
-  | cut k =>
-    by_cases hkl : k < cfg.blob.length
-    · simp only [doRequest, request, hkl, if_true]
-      exact ⟨by simp, fun _ => part_good k hkl⟩
-    · simp [doRequest, request, hkl, full_ok]
+  | full ch => simp [doRequest, request, full_ok]
+  | cut k ch =>
+    cases ch with
+    | true =>
+      simp only [doRequest, request]
+      exact ⟨by simp, fun _ => part_good k⟩
+    | false =>
+      by_cases hkl : k < cfg.blob.length
+      · simp only [doRequest, request, hkl, if_true]
+        have hlen : (cfg.blob.take k).length = k := by simp [List.length_take]; omega
+        have := part_good k
+        rw [hlen] at this
+        exact ⟨by simp, fun _ => this⟩
+      · simp [doRequest, request, hkl, full_ok]
 
 /-- the POLL loop of one origin keeps the invariant, and a success leaves exactly one copy -/
 theorem pollOrigin_good (cfg : Cfg) (hg : cfg.guarded = true) (d0 : Dst) (i : Nat) :
@@ -222,11 +230,14 @@ theorem doRequest_ok (cfg : Cfg) (i : Nat) (st : St) (r : Resp) :
   cases r with
   | netErr => simp [doRequest, request]
   | status c => simp [doRequest, request]
-  | full => simp [Resp.delivers]
-  | cut k =>
-    by_cases hkl : k < cfg.blob.length
-    · simp [doRequest, request, hkl]
-    · simp [Resp.delivers]; omega
+  | full ch => simp [Resp.delivers]
+  | cut k ch =>
+    cases ch with
+    | true => simp [doRequest, request]
+    | false =>
+      by_cases hkl : k < cfg.blob.length
+      · simp [doRequest, request, hkl]
+      · simp [Resp.delivers]; omega
 
 theorem doRequest_trace (cfg : Cfg) (i : Nat) (st : St) (r : Resp) :
     (doRequest cfg i st r).1.trace = st.trace ++ [i] := by
@@ -405,16 +416,18 @@ def FailsOver (blobLen : Nat) : List Resp → Prop
   | [] => True
   | .netErr :: _ => True
   | .status c :: _ => 500 ≤ c
-  | .cut k :: _ => k < blobLen
-  | .full :: _ => False
+  | .cut k false :: _ => k < blobLen
+  | .cut _ true :: _ => True
+  | .full _ :: _ => False
 
 /-- … and it fails before any body byte arrives -/
 def FailsClean (blobLen : Nat) : List Resp → Prop
   | [] => True
   | .netErr :: _ => True
   | .status c :: _ => 500 ≤ c
-  | .cut k :: _ => k = 0 ∧ 0 < blobLen
-  | .full :: _ => False
+  | .cut k false :: _ => k = 0 ∧ 0 < blobLen
+  | .cut k true :: _ => k = 0 ∨ blobLen = 0
+  | .full _ :: _ => False
 
 def HeadDelivers (blobLen : Nat) : List Resp → Prop
   | r :: _ => r.delivers blobLen = true
@@ -467,7 +480,7 @@ theorem pollOrigin_failsOver (cfg : Cfg) (hg : cfg.guarded = true) (d0 : Dst) (i
       simp only [doRequest, request]
       refine ⟨trivial, by simpa [doRequest, request] using (hreq .netErr).2 (by simp [doRequest, request]), ?_⟩
       right; simp [hn1]
-    | full => rcases hf with hf | hf <;> simp [FailsOver, FailsClean] at hf
+    | full ch => rcases hf with hf | hf <;> simp [FailsOver, FailsClean] at hf
     | status c =>
       have hc : 500 ≤ c := by
         rcases hf with hf | hf
@@ -478,17 +491,28 @@ theorem pollOrigin_failsOver (cfg : Cfg) (hg : cfg.guarded = true) (d0 : Dst) (i
       simp only [doRequest, request, h1, h2, if_false]
       refine ⟨trivial, by simpa [doRequest, request] using (hreq (.status c)).2 (by simp [doRequest, request]), ?_⟩
       right; simp [hn1]
-    | cut k =>
-      rcases hf with hf | hf
-      · have hk : k < cfg.blob.length := by simpa [FailsOver] using hf.2
-        simp only [doRequest, request, hk, if_true]
-        refine ⟨trivial, by simpa [doRequest, request, hk] using (hreq (.cut k)).2 (by simp [doRequest, request, hk]), ?_⟩
-        left; exact hf.1
-      · obtain ⟨hk0, hb⟩ : k = 0 ∧ 0 < cfg.blob.length := by simpa [FailsClean] using hf
-        subst hk0
-        simp only [doRequest, request, hb, if_true]
-        refine ⟨trivial, by simpa [doRequest, request, hb] using (hreq (.cut 0)).2 (by simp [doRequest, request, hb]), ?_⟩
-        right; simp [hn1]
+    | cut k ch =>
+      cases ch with
+      | false =>
+        rcases hf with hf | hf
+        · have hk : k < cfg.blob.length := by simpa [FailsOver] using hf.2
+          simp only [doRequest, request, hk, if_true]
+          refine ⟨trivial, by simpa [doRequest, request, hk] using (hreq (.cut k false)).2 (by simp [doRequest, request, hk]), ?_⟩
+          left; exact hf.1
+        · obtain ⟨hk0, hb⟩ : k = 0 ∧ 0 < cfg.blob.length := by simpa [FailsClean] using hf
+          subst hk0
+          simp only [doRequest, request, hb, if_true]
+          refine ⟨trivial, by simpa [doRequest, request, hb] using (hreq (.cut 0 false)).2 (by simp [doRequest, request, hb]), ?_⟩
+          right; simp [hn1]
+      | true =>
+        simp only [doRequest, request]
+        refine ⟨trivial, by simpa [doRequest, request] using (hreq (.cut k true)).2 (by simp [doRequest, request]), ?_⟩
+        rcases hf with hf | hf
+        · left; exact hf.1
+        · right
+          have : k = 0 ∨ cfg.blob.length = 0 := by simpa [FailsClean] using hf
+          simp only [hn1, Nat.zero_add, List.length_take]
+          omega
 
 theorem pollOrigin_delivers (cfg : Cfg) (hg : cfg.guarded = true) (d0 : Dst) (i b : Nat) (script : List Resp)
     (st : St) (h : Ready d0 cfg.blob st) (hd : HeadDelivers cfg.blob.length script) :
@@ -501,10 +525,13 @@ theorem pollOrigin_delivers (cfg : Cfg) (hg : cfg.guarded = true) (d0 : Dst) (i 
     cases r with
     | netErr => simp [HeadDelivers, Resp.delivers] at hd
     | status c => simp [HeadDelivers, Resp.delivers] at hd
-    | full => simp [doRequest, request]
-    | cut k =>
-      have hk : ¬ k < cfg.blob.length := by simp [HeadDelivers, Resp.delivers] at hd; omega
-      simp [doRequest, request, hk]
+    | full ch => simp [doRequest, request]
+    | cut k ch =>
+      cases ch with
+      | true => simp [HeadDelivers, Resp.delivers] at hd
+      | false =>
+        have hk : ¬ k < cfg.blob.length := by simp [HeadDelivers, Resp.delivers] at hd; omega
+        simp [doRequest, request, hk]
 
 theorem pollFrom_fallthrough (cfg : Cfg) (hg : cfg.guarded = true) (d0 : Dst) (o : List Resp)
     (post : List (List Resp)) (hd : HeadDelivers cfg.blob.length o) :
